@@ -3,6 +3,7 @@
    Model: coq/model/StateModel.v (state `sigma`, `step`, `run`), pure reference and
    safety predicates: coq/model/StatePure.v.  Proofs: coq/proofs/State*.v. *)
 From DW Require Import PyStr StrConv StateModel StatePure StateInv StateHist StateTransparent StateWitness StateProps.
+From DW Require Import HistMemo HistMemoProofs HistValueModel HistValueProofs HistPatProofs HistProduct HistWitness.
 
 (* The memo invariant.  `Inv s` = for some assignment G of "the Meta under which the tables of class n
    were generated", every cache entry of s equals the pure function it memoises (InvG, proofs/StateInv.v):
@@ -105,3 +106,149 @@ Theorem C06_refuted_nested_alone_first :
   exists h o, safe_history h = true /\ snd (step (run init h) o) <> snd (step (run init (defs_all h)) o).
 Proof. exists h_f10c, o_f10c. exact refuted_f10c. Qed.
 Print Assumptions C06_refuted_nested_alone_first.
+
+(* ======================================================================================================
+   SECOND STATE MACHINE (model/HistValueModel.v): values that carry their exact Python type, the generated
+   loaders of BOTH engines as state (default-engine key cache, v1 key-resolution order), Pattern objects
+   shared between classes, and a value-level memo whose key equality `mk` is a parameter.
+   The stdlib parsers (fromisoformat, fromtimestamp, strptime) and the leaf conversions / dump hooks that are
+   not spelled out are universally quantified: every theorem holds whatever they are.
+   ====================================================================================================== *)
+
+(* MEMO SOUNDNESS, in general: a memo table consulted with key equality keq is transparent (after every
+   history of calls every call answers as the memoised function f) IF AND ONLY IF f factors through keq on
+   the entries the table keeps. *)
+Theorem C06_memo_sound_iff :
+  forall (K V : Type) (f : K -> V) (keq : K -> K -> bool) (cacheable : V -> bool),
+  mtransparent f keq cacheable <-> factors f keq cacheable.
+Proof. exact @memo_sound_iff. Qed.
+Print Assumptions C06_memo_sound_iff.
+
+(* the invariant behind it: every entry a lookup can return equals the pure function of the key looked up *)
+Theorem C06_memo_inv :
+  forall (K V : Type) (f : K -> V) (keq : K -> K -> bool) (cacheable : V -> bool) (t : mtable) (k : K),
+  factors f keq cacheable -> msound f keq t ->
+  snd (mcall f keq cacheable t k) = f k /\ msound f keq (fst (mcall f keq cacheable t k)).
+Proof. exact @mcall_sound. Qed.
+Print Assumptions C06_memo_inv.
+
+(* instances: no value-level memo (the library), and a memo keyed by (type, value) exactly, factor *)
+Theorem C06_memo_library_factors :
+  forall iso fromts, factors (am iso fromts) mk_none am_cacheable /\ factors (am iso fromts) mk_exact am_cacheable.
+Proof. intros iso fromts. split; [apply factors_none | apply factors_exact]. Qed.
+Print Assumptions C06_memo_library_factors.
+
+(* the machine's invariant (every generated table of every class equals the pure function of the class
+   definition / of its key; the value memo is sound) holds after EVERY history *)
+Theorem C06_hist_inv_run :
+  forall conv0 dumpv iso fromts strp mk, factors (am iso fromts) mk am_cacheable ->
+  forall h, HInv iso fromts mk (hrun conv0 dumpv iso fromts strp mk hinit h).
+Proof. intros conv0 dumpv iso fromts strp mk F h. apply hrun_inv; [exact F | apply HInv_init]. Qed.
+Print Assumptions C06_hist_inv_run.
+
+(* TRANSPARENCY over ALL histories (no side condition on the history): returned value, error class, class and
+   field of every load / dump equal those of the same call after the definitions alone.  `erase_ty` leaves out
+   only the type NAMED by a ParseError (open finding F73). *)
+Theorem C06_hist_transparent_all :
+  forall conv0 dumpv iso fromts strp mk, factors (am iso fromts) mk am_cacheable ->
+  forall h o,
+  erase_ty (snd (hstep conv0 dumpv iso fromts strp mk (hrun conv0 dumpv iso fromts strp mk hinit h) o)) =
+  erase_ty (snd (hstep conv0 dumpv iso fromts strp mk (hrun conv0 dumpv iso fromts strp mk hinit (hdefs_all h)) o)).
+Proof. exact hist_transparent_erased. Qed.
+Print Assumptions C06_hist_transparent_all.
+
+(* FULL transparency (also the type an error names) where every Pattern object is used at positions of one
+   date/time type.  _partial: outside this region the faithful model differs (C06_hist_refuted_shared_pattern). *)
+Theorem C06_hist_transparent_partial :
+  forall conv0 dumpv iso fromts strp mk, factors (am iso fromts) mk am_cacheable ->
+  forall h o, pat_consistent (h ++ [o]) = true ->
+  snd (hstep conv0 dumpv iso fromts strp mk (hrun conv0 dumpv iso fromts strp mk hinit h) o) =
+  snd (hstep conv0 dumpv iso fromts strp mk (hrun conv0 dumpv iso fromts strp mk hinit (hdefs_all h)) o).
+Proof. exact hist_transparent_partial. Qed.
+Print Assumptions C06_hist_transparent_partial.
+
+(* the library's own policy (no value-level memo), and an exact-keyed memo: no hypothesis left *)
+Theorem C06_hist_transparent_library :
+  forall conv0 dumpv iso fromts strp mk, mk = mk_none \/ mk = mk_exact ->
+  forall h o,
+  erase_ty (snd (hstep conv0 dumpv iso fromts strp mk (hrun conv0 dumpv iso fromts strp mk hinit h) o)) =
+  erase_ty (snd (hstep conv0 dumpv iso fromts strp mk (hrun conv0 dumpv iso fromts strp mk hinit (hdefs_all h)) o))
+  /\ (pat_consistent (h ++ [o]) = true ->
+      snd (hstep conv0 dumpv iso fromts strp mk (hrun conv0 dumpv iso fromts strp mk hinit h) o) =
+      snd (hstep conv0 dumpv iso fromts strp mk (hrun conv0 dumpv iso fromts strp mk hinit (hdefs_all h)) o)).
+Proof.
+  intros conv0 dumpv iso fromts strp mk [-> | ->] h o.
+  - split; [apply hist_transparent_erased | apply hist_transparent_partial]; apply factors_none.
+  - split; [apply hist_transparent_erased | apply hist_transparent_partial]; apply factors_exact.
+Qed.
+Print Assumptions C06_hist_transparent_library.
+
+(* ... and both equal the cache-free reference (no table read; keys resolved by resolve_x / the v1 chain of
+   the definition; values converted by the conversion itself) *)
+Theorem C06_hist_pure_outcome_partial :
+  forall conv0 dumpv iso fromts strp mk, factors (am iso fromts) mk am_cacheable ->
+  forall h o, pat_consistent (h ++ [o]) = true ->
+  snd (hstep conv0 dumpv iso fromts strp mk (hrun conv0 dumpv iso fromts strp mk hinit h) o) =
+  pure_hop conv0 dumpv iso fromts strp mk (h_defs (hrun conv0 dumpv iso fromts strp mk hinit h)) o.
+Proof. exact hist_pure_partial. Qed.
+Print Assumptions C06_hist_pure_outcome_partial.
+
+(* non-vacuity: v1 AUTO with two spellings of one field after a camelCase document, default engine with two
+   spellings (document order decides), exact-typed values, a shared Pattern object at two date positions *)
+Example C06_hist_example :
+  pat_consistent (h_ex ++ [o_ex]) = true /\
+  snd (w_step mk_none (w_run mk_none hinit h_ex) o_ex) = HVal 1%nat [(S "user_name", v_str (S "bob")); (S "id", v_true)].
+Proof. exact (conj (proj1 hist_example) (proj1 (proj2 hist_example))). Qed.
+Print Assumptions C06_hist_example.
+
+(* the two machines side by side (an interleaved history of both): C06_transparent and the theorem above compose *)
+Theorem C06_product_transparent :
+  forall conv0 dumpv iso fromts strp mk, factors (am iso fromts) mk am_cacheable ->
+  forall h o, safe_history (lefts (h ++ [o])) = true -> pat_consistent (rights (h ++ [o])) = true ->
+  snd (pstep conv0 dumpv iso fromts strp mk (prun conv0 dumpv iso fromts strp mk (init, hinit) h) o) =
+  snd (pstep conv0 dumpv iso fromts strp mk (prun conv0 dumpv iso fromts strp mk (init, hinit) (pdefs_all h)) o).
+Proof. exact product_transparent. Qed.
+Print Assumptions C06_product_transparent.
+
+(* REFUTATIONS.
+   (C06-9) a memo keyed as a Python dict keys (value, type): 1 == True (== 1.0 == Decimal(1)) collide, the
+   conversion dispatches on the exact type -> it does not factor, for EVERY stdlib in which the timestamp 1
+   converts; hence (memo lemma) such a memo is not transparent *)
+Theorem C06_memo_pyeq_refuted :
+  forall iso fromts r, fromts KDt (x_txt v_int1) = COk r ->
+  ~ factors (am iso fromts) mk_py am_cacheable /\ ~ mtransparent (am iso fromts) mk_py am_cacheable.
+Proof. intros iso fromts r H. split; [exact (memo_py_not_factors iso fromts r H) | exact (memo_py_refuted iso fromts r H)]. Qed.
+Print Assumptions C06_memo_pyeq_refuted.
+
+(* ... and in the machine: an unrelated class loads the timestamp 1, then Event(at: datetime) accepts True *)
+Theorem C06_hist_refuted_pyeq_memo :
+  exists h o, pat_consistent (h ++ [o]) = true /\
+  snd (w_step mk_py (w_run mk_py hinit h) o) <> snd (w_step mk_py (w_run mk_py hinit (hdefs_all h)) o).
+Proof.
+  exists h_memo9, o_memo9. destruct refuted_memo9 as [A [B C]]. split; [exact C |]. rewrite A, B. discriminate.
+Qed.
+Print Assumptions C06_hist_refuted_pyeq_memo.
+
+(* (F73, the library itself) one Pattern object at a date and at a datetime position: the ParseError of the
+   date position names datetime once the other class has set up its parser *)
+Theorem C06_hist_refuted_shared_pattern :
+  exists h o, pat_consistent (h ++ [o]) = false /\
+  snd (w_step mk_none (w_run mk_none hinit h) o) <> snd (w_step mk_none (w_run mk_none hinit (hdefs_all h)) o).
+Proof.
+  exists h_f71, o_f71. destruct refuted_f71 as [A [B C]]. split; [exact C |]. rewrite A, B. discriminate.
+Qed.
+Print Assumptions C06_hist_refuted_shared_pattern.
+
+(* (C06-8) remembering per FIELD the spelling that matched last memoises a function of (field, document) under
+   the key `field`; (C06-7) memoising the generated transform on the Pattern OBJECT memoises a function of
+   (object, cls) under the key `object`: neither factors, so neither is transparent; keyed by (object, cls)
+   it would be *)
+Theorem C06_learned_key_order_refuted :
+  exists ks q, snd (mcall learned_f learned_keq is_some (mrun learned_f learned_keq is_some [] ks) q) <> learned_f q.
+Proof. exact learned_key_refuted. Qed.
+Print Assumptions C06_learned_key_order_refuted.
+Theorem C06_pattern_object_memo_refuted :
+  (exists ks q, snd (mcall patfn_f patfn_keq (fun _ => true) (mrun patfn_f patfn_keq (fun _ => true) [] ks) q) <> patfn_f q) /\
+  (forall V (g : nat * dkind -> V), factors g (fun a b => Nat.eqb (fst a) (fst b) && dkind_eqb (snd a) (snd b)) (fun _ => true)).
+Proof. split; [exact pattern_object_memo_refuted | exact @pattern_pair_memo_factors]. Qed.
+Print Assumptions C06_pattern_object_memo_refuted.
